@@ -14,7 +14,7 @@ import numpy as np
 import z3
 
 from . import source
-from .values import (NDArr, PyRaise, Unsupported, b_and, b_ite, b_not, b_or, is_sym, num_binop, num_cmp, simp,
+from .values import (Cx, NDArr, PyRaise, Unsupported, b_and, b_ite, b_not, b_or, is_sym, num_binop, num_cmp, simp,
                      to_frac, z, obj_array, coerce_cell, arr_kind_of, elementwise, to_real, trunc_to_int)
 
 MAX_PATHS = 512
@@ -1060,6 +1060,8 @@ class Interp:
                 d = elementwise(lambda x, y: self.scalar_binop(op, x, y), l, r)
             except ValueError:
                 raise PyRaise("ValueError", "operands could not be broadcast together")
+            if any(isinstance(a, NDArr) and a.kind == "c" for a in (l, r)) or any(isinstance(a, Cx) for a in (l, r)):
+                return NDArr(d, "c")
             kind = "f" if (op == "/" or any(isinstance(a, NDArr) and a.kind == "f" for a in (l, r)) or
                            any((is_sym(a) and z3.is_real(a)) or isinstance(a, Fraction) for a in (l, r) if not isinstance(a, NDArr))) else "i"
             return NDArr(d, kind)
